@@ -512,7 +512,7 @@ def emit_layouts(out, tier, label, family='uamiv'):
     r = need_ok(run_tlc('CamxLayout_MC', workers=16, timeout=3000, heap='8g',
                         env={'PNC_EMIT': '1', 'PNC_CAMX_SCALE': scale,
                              'PNC_CAMX_FAMILY': family,
-                             'PNC_CAMX_DEV': 'none'}),
+                             'PNC_CAMX_DEV': 'none', 'PNC_CAMX_CUTS': '1'}),
                 'CamxLayout_MC')
     out.add_tlc('CamxLayout_MC (%s): tiling, reader decision procedure on '
                 'every cut offset' % label, r)
@@ -525,7 +525,8 @@ def emit_layouts(out, tier, label, family='uamiv'):
                              heap='8g',
                              env={'PNC_EMIT': '0', 'PNC_CAMX_SCALE': scale,
                                   'PNC_CAMX_FAMILY': family,
-                                  'PNC_CAMX_DEV': 'wind_legacy_count'}),
+                                  'PNC_CAMX_DEV': 'wind_legacy_count',
+                                  'PNC_CAMX_CUTS': '1'}),
                      'CamxLayout_MC wind_legacy_count')
         out.add_tlc('CamxLayout_MC sharpness: the legacy wind step count must '
                     'violate WindNeverFabricates/WindFullFileReadsAll', rd)
